@@ -89,6 +89,16 @@ def seq_tokens(lib, p11drv, seed, idx):
                             bad('the SO PIN given to C_InitToken does not log in')
                         if p.rv('logout %s' % s_) == 0 and p.rv('login %s 1 %s' % (s_, pin)) == 0:
                             bad('a user can log in to a freshly initialised token')
+                        if rng.random() < 0.6:
+                            # most tokens get a user PIN at once (so that a later re-initialisation has one to remove)
+                            up = newpin('abcdef')
+                            p.op('login %s 0 %s' % (s_, pin))
+                            if p.rv('initpin %s %s' % (s_, up)) == 0:
+                                user[k] = up
+                                ti2 = tinfo(k)
+                                if ti2 and not ti2['flags'] & 0x8:
+                                    bad('after C_InitPIN the token does not report an initialised user PIN')
+                            p.op('logout %s' % s_)
                         p.op('close %s' % s_)
                 else:
                     bad('C_InitToken on the free slot failed: %s' % r.get('rv'))
